@@ -37,8 +37,9 @@ def run(tier, seed):
     # 1. design model: every history of list operations inside the bound
     designs = [("small", [1, 2], [0, 1], [0, 4], "DConsSmall", [0], 2)]
     if not quick:
-        designs.append(("auto", [1, 2], [0, 1], [0, 4], "DConsSmall", [0, 1], 2))
-        designs.append(("three", [1, 2, 3], [0, 1], [0, 4], "DConsSmall", [0], 2))
+        designs.append(("auto", [1, 2], [0, 1], [0, 4], "DConsSmall", [1], 2))          # auto-correcting entries
+        designs.append(("three", [1, 2, 3], [0, 1], [0, 4], "DConsSmall", [0], 1))      # three lists of one entry
+        designs.append(("vals3", [1, 2], [0, 1], [0, 4, 8], "DConsBig", [0], 2))        # three values, two constraints
     for name, lids, names, vals, cons, kinds, maxlen in designs:
         cfg = os.path.join(wd, "design_%s.cfg" % name)
         _design_cfg(cfg, lids, names, vals, cons, kinds, maxlen)
@@ -46,7 +47,7 @@ def run(tier, seed):
         pc.add_design(ck, "ParamList/" + name, r, "LIds=%s NameIds=%s DVals=%s DCons=%s DKinds=%s MaxLen=%d" % (lids, names, vals, cons, kinds, maxlen))
     # 2. implementation traces
     exe = vc.build_driver("drv_params")
-    runs = [("list", ["--mode", "list", "--n", 250 if quick else 5000]),
+    runs = [("list", ["--mode", "list", "--n", 250 if quick else 4000]),
             ("bulk", ["--mode", "bulk", "--nmax", 2 if quick else 3])]
     for name, args in runs:
         tr = os.path.join(wd, "trace-%s.ndjson" % name)
